@@ -25,6 +25,8 @@ VALUES = [
     ["S", [["i", "1"], ["i", "2"], ["i", "3"]]], ["F", [["i", "1"], ["i", "2"], ["i", "3"]]], ["S", [["s", "a"], ["s", "b"], ["s", "c"]]],
     ["L", [["D", [[["s", "k"], ["S", [["i", "1"], ["i", "2"]]]]]], ["n"]]],
     ["L", []], ["T", []], ["D", []],
+    ["y", "6b65792d31"], ["s", "key-1"], ["L", [["y", "6b65792d31"], ["y", "6b65792d31"]]], ["T", [["s", "key-1"], ["s", "key-1"]]],
+    ["D", [[["s", "a"], ["y", "6b65792d31"]], [["s", "b"], ["y", "6b65792d31"]]]],
 ]
 
 
@@ -227,12 +229,12 @@ def build_case(rng, sigs, with_ignore, nfuncs=5, ncalls=40, nproc=1):
             variants.append(b3)
         for v in variants:
             for args, kwargs in forms_of(rng, f["sig"], v, n=rng.choice([1, 2, 3])):
-                steps.append(dict(f=fi, args=args, kwargs=kwargs, perm=rng.randrange(1 << 20),
+                steps.append(dict(f=fi, args=args, kwargs=kwargs, perm=rng.randrange(1 << 20), share=rng.random() < 0.5,
                                   how=rng.choice(["call", "call", "call", "shelve"]), check_before=rng.random() < 0.5,
                                   holder=rng.choice(["h0", "h0", "h1"])))
     rng.shuffle(steps)
     # repeat some earlier steps later (hits), possibly in another process
-    reps = [dict(s, perm=rng.randrange(1 << 20), check_before=True) for s in rng.sample(steps, min(len(steps), max(3, len(steps) // 3)))]
+    reps = [dict(s, perm=rng.randrange(1 << 20), check_before=True, share=not s.get("share")) for s in rng.sample(steps, min(len(steps), max(3, len(steps) // 3)))]
     steps += reps
     segs = []
     n = len(steps)
